@@ -355,6 +355,8 @@ def run(P, R, L):
     K.grd24_reuse_adopts_number_with_file(P, R, L)
     R.clause("GRD-26", "recover reports the manifest as adopted only when maybe_reuse_manifest adopted it (otherwise no new manifest is written and the old one is collected)")
     K.grd26_reused_flag_truthful(P, R, L)
+    R.clause("LVL-1", "get_live_files visits every level (files of the deepest level are protected from the collector)")
+    K.lvl1_level_loops_cover_all_levels(P, R, L)
     R.clause("ORD-18", "the garbage collection that ends a table compaction runs after the compaction released its input version")
     K.ord18_gc_after_release(P, R, L)
     R.not_decided += ["directory contents for a concrete history", "crash-orphan collection beyond the guards"]
